@@ -1,6 +1,8 @@
 package main
 
 import (
+	"syscall"
+	"errors"
 	"crypto/sha1"
 	"fmt"
 	"sort"
@@ -100,6 +102,8 @@ type FS struct {
 	// auth behaviour
 	AuthCheckErr map[uint32]string // by fid number of the attach: error text ("" = accept)
 	AuthInitErr  string
+	AuthReadGate *vs.Sem // the next AuthRead call parks here (an authentication protocol waiting for the other side)
+	ErrKind      string // what kind of error value the auth callbacks return: "" (*go9p.Error), "plain" (errors.New), "errno" (syscall.Errno), "wrapped" (fmt.Errorf with %w)
 	ErrAll       map[string]string // op name -> error (implementation failure injection)
 	destroyed    map[int]int       // token -> times destroyed
 	cancelled    map[*go9p.SrvReq]bool // requests this implementation cancelled through FlushOp
@@ -638,7 +642,7 @@ func (fs FSAuth) AuthInit(afid *go9p.SrvFid, aname string) (*go9p.Qid, error) {
 	fs.tokenConn[fs.ntoken] = fs.connIdx(afid.Fconn)
 	fs.Log = append(fs.Log, Entry{Seq: vs.Seq(), Kind: "call", Op: "AuthInit", Conn: fs.connIdx(afid.Fconn), Token: fs.ntoken, User: userName(afid.User), Args: fmt.Sprintf("aname=%q", aname)})
 	if fs.AuthInitErr != "" {
-		return nil, &go9p.Error{Err: fs.AuthInitErr, Errornum: 1}
+		return nil, fs.mkErr(fs.AuthInitErr)
 	}
 	return &go9p.Qid{Type: go9p.QTAUTH, Path: 999}, nil
 }
@@ -664,12 +668,31 @@ func (fs FSAuth) AuthCheck(fid *go9p.SrvFid, afid *go9p.SrvFid, aname string) er
 	}
 	fs.Log = append(fs.Log, Entry{Seq: vs.Seq(), Kind: "authcheck", Conn: fs.connIdx(fid.Fconn), Token: at, User: userName(fid.User), Args: fmt.Sprintf("aname=%q verdict=%q", aname, verdict)})
 	if verdict != "" {
-		return &go9p.Error{Err: verdict, Errornum: 1}
+		return fs.mkErr(verdict)
 	}
 	return nil
 }
 
+// mkErr: the callbacks of an implementation return `error`; any error value counts,
+// not only the library's own type.
+func (fs *FS) mkErr(text string) error {
+	switch fs.ErrKind {
+	case "plain":
+		return errors.New(text)
+	case "errno":
+		return syscall.EACCES
+	case "wrapped":
+		return fmt.Errorf("auth: %w", &go9p.Error{Err: text, Errornum: 1})
+	}
+	return &go9p.Error{Err: text, Errornum: 1}
+}
+
 func (fs FSAuth) AuthRead(afid *go9p.SrvFid, offset uint64, data []byte) (int, error) {
+	if g := fs.AuthReadGate; g != nil {
+		fs.FS.AuthReadGate = nil
+		fs.Log = append(fs.Log, Entry{Seq: vs.Seq(), Kind: "call", Op: "AuthRead(parked)", Conn: fs.connIdx(afid.Fconn), Token: auxOf(afid).token})
+		g.Acquire()
+	}
 	fs.Log = append(fs.Log, Entry{Seq: vs.Seq(), Kind: "call", Op: "AuthRead", Conn: fs.connIdx(afid.Fconn), Token: auxOf(afid).token, User: userName(afid.User), Args: fmt.Sprintf("off=%d count=%d", offset, len(data))})
 	n := copy(data, "authdata")
 	return n, nil
